@@ -31,7 +31,12 @@
        that keeps its name; C05_table_contained / C05_table_contained_documents: the same from token vectors
        resp. texts on, hypotheses of C05_containment, both builds succeed).
    The side conditions are necessary (C05_table_example, and C05_table_name_clash: a damage that gives
-   declaration k the name of a LATER declaration takes that declaration's entry - the first declaration wins). *)
+   declaration k the name of a LATER declaration takes that declaration's entry - the first declaration wins).
+   The positional part is proved too (last part of this file, from Proofs/ErrInside*.v), for ALL token lists: every
+   syntax error collected from a declaration lies inside the token span of that declaration
+   (C05_errors_inside_declaration, C05_tree_errors_inside), hence the errors of a damaged region lie inside that
+   region (C05_errors_contained_located); the one exception to strict inclusion - the empty range of an empty
+   parameter declaration / argument at the very end of a declaration - is exhibited (C05_soft_error_example). *)
 From Spl Require Import Model.Lexer Model.Parser Model.Errors Proofs.ParserTotal Proofs.ParserSync Proofs.ParserFwd Proofs.ParserProofs
   Proofs.PipelineProofs Proofs.ParserShiftProofs Proofs.RangeProofsBuild
   Proofs.TableContain Proofs.TableContainSim Proofs.TableContainTop.
@@ -502,3 +507,102 @@ Proof.
   split; [vm_compute; discriminate | vm_compute; reflexivity].
 Qed.
 Print Assumptions C05_table_name_clash.
+
+(* ------------------------------------------------------------------------------------------ *)
+(* WHERE the syntax errors lie (Proofs/ErrInsideNodes.v, ErrInsideSyn.v, ErrInsideTop.v): for ALL token lists
+   (not even EofLast is needed) every error errors() collects from a global declaration lies inside the token span
+   of that declaration.  Declaration k starts at offset o; [Boundary p (S k) nxt]: nxt is the offset of declaration
+   k+1 or, behind the last declaration, the end of the declarations (the index of the first trailing comment / of
+   the Eof token).  [C05_inside o nxt e]: o <= e_s e <= e_e e <= nxt, and e_s e < nxt - with ONE exception: the
+   error of an EMPTY parameter declaration or argument (`ignore_until0` that skipped nothing: messages
+   "expected `parameter declaration`" / "expected `expression`") carries the empty range AT the position the parser
+   stands on, which is nxt when the declaration ends there (C05_soft_error_example: `proc x ( , proc x ( ) { }`).
+   An empty token range i..i is published at the END of token i (Model/Errors.v byte_range), so exactly these
+   diagnostics are displayed at the end of the first token of the NEXT declaration (resp. of the first trailing
+   comment / Eof; C05_soft_error_text_example), every other diagnostic within the bytes of its own declaration. *)
+From Spl Require Proofs.ErrInsideTop.
+
+Definition C05_inside (lo hi : nat) (e : err) : Prop :=
+  lo <= e_s e /\ e_s e <= e_e e /\ e_e e <= hi /\
+  (e_s e < hi \/
+   e_s e = hi /\ e_e e = hi /\
+   (e_m e = EParse (ExpectedToken s_paramdec) \/ e_m e = EParse (ExpectedToken s_expression))).
+
+Theorem C05_errors_inside_declaration : forall toks p k g o nxt e,
+  parse toks = Done p -> nth_error (pg_decls p) k = Some (g, o) -> Boundary p (S k) nxt ->
+  In e (shift_es o (gdecl_errors g)) -> C05_inside o nxt e.
+Proof. exact ErrInsideTop.errors_inside_declaration. Qed.
+Print Assumptions C05_errors_inside_declaration.
+
+(* a non-empty range lies strictly inside *)
+Theorem C05_nonempty_range_inside : forall toks p k g o nxt e,
+  parse toks = Done p -> nth_error (pg_decls p) k = Some (g, o) -> Boundary p (S k) nxt ->
+  In e (shift_es o (gdecl_errors g)) -> e_s e < e_e e -> o <= e_s e /\ e_s e < nxt /\ e_e e <= nxt.
+Proof. exact ErrInsideTop.nonempty_range_strictly_inside. Qed.
+Print Assumptions C05_nonempty_range_inside.
+
+(* the published list: the program node of a parse result carries no error (its errors come from `build`: "main is
+   missing" at 0..0, "main must not have parameters" at the name of main); every error is collected from a declaration
+   and lies in its span, and - unless it is one of the soft errors sitting on nxt - in no other declaration's span *)
+Theorem C05_tree_errors_inside : forall toks p e,
+  parse toks = Done p -> In e (tree_errors p) ->
+  i_errs (pg_info p) = [] /\
+  exists k g o nxt,
+    nth_error (pg_decls p) k = Some (g, o) /\ Boundary p (S k) nxt /\
+    In e (shift_es o (gdecl_errors g)) /\ C05_inside o nxt e /\
+    (e_s e < nxt -> forall k' g' o' nxt',
+       nth_error (pg_decls p) k' = Some (g', o') -> Boundary p (S k') nxt' -> o' <= e_s e < nxt' -> k' = k).
+Proof. exact ErrInsideTop.tree_errors_inside. Qed.
+Print Assumptions C05_tree_errors_inside.
+
+(* C05_errors_contained with positions (same hypotheses as C05_containment): the errors of the unchanged declarations
+   in front end at or before o, the errors of the damaged region lie in [o, length pre + length mid'] (in
+   [o, length pre + length mid] before the damage), the shifted errors behind lie behind that *)
+Theorem C05_errors_contained_located : forall pre mid mid' post p p' j k o k2 k2',
+  EofLast (pre ++ mid ++ post) -> EofLast (pre ++ mid' ++ post) ->
+  parse (pre ++ mid ++ post) = Done p -> parse (pre ++ mid' ++ post) = Done p' ->
+  (exists t, nth_error pre j = Some t /\ sync_full (tk t) = true) -> Boundary p k o -> o <= j ->
+  Boundary p k2 (length pre + length mid) -> Boundary p' k2' (length pre + length mid') ->
+  exists before damaged damaged' after after',
+    tree_errors p = before ++ damaged ++ after /\
+    tree_errors p' = before ++ damaged' ++ after' /\
+    shift_es (length mid') after = shift_es (length mid) after' /\
+    before = decl_errors (firstn k (pg_decls p)) /\
+    damaged = decl_errors (firstn (k2 - k) (skipn k (pg_decls p))) /\
+    damaged' = decl_errors (firstn (k2' - k) (skipn k (pg_decls p'))) /\
+    after = decl_errors (skipn k2 (pg_decls p)) /\ after' = decl_errors (skipn k2' (pg_decls p')) /\
+    (forall e, In e before -> C05_inside 0 o e) /\
+    (forall e, In e damaged -> C05_inside o (length pre + length mid) e) /\
+    (forall e, In e damaged' -> C05_inside o (length pre + length mid') e) /\
+    (forall e, In e after -> C05_inside (length pre + length mid) (i_e (pg_info p)) e) /\
+    (forall e, In e after' -> C05_inside (length pre + length mid') (i_e (pg_info p')) e).
+Proof. exact ErrInsideTop.errors_contained_located. Qed.
+Print Assumptions C05_errors_contained_located.
+
+(* non-vacuity, and the strict bound fails for the soft class: `proc x ( , proc x ( ) { } Eof` - declaration 0 is the
+   tokens 0..3, nxt = 4; the second (empty) parameter declaration has the range 4..4; the other errors sit on 3..3 *)
+Example C05_soft_error_example :
+  EofLast ErrInsideTop.ex_param /\ parse ErrInsideTop.ex_param = Done (prog_of ErrInsideTop.ex_param) /\
+  exists g, nth_error (pg_decls (prog_of ErrInsideTop.ex_param)) 0 = Some (g, 0) /\
+    Boundary (prog_of ErrInsideTop.ex_param) 1 4 /\
+    In {| e_s := 4; e_e := 4; e_m := EParse (ExpectedToken s_paramdec) |} (shift_es 0 (gdecl_errors g)) /\
+    In {| e_s := 3; e_e := 3; e_m := EParse (MissingClosing 125%N) |} (shift_es 0 (gdecl_errors g)).
+Proof. exact ErrInsideTop.ex_soft_param. Qed.
+
+(* the same document as a text (ErrInsideTop.ex_param_text = `proc a(, proc b(){}`; [published]: the byte ranges of
+   doc_errors of new_doc): the soft diagnostic is published at byte 13, the end of the
+   `proc` token (bytes 9..13) of the next declaration *)
+Example C05_soft_error_text_example :
+  ErrInsideTop.published ErrInsideTop.ex_param_text = Some [(4, 4); (8, 8); (8, 8); (8, 8); (8, 8); (13, 13)]%N /\
+  option_map (map (fun t => (ts t, te t))) (lex ErrInsideTop.ex_param_text) =
+  Some [(0, 4); (5, 6); (6, 7); (7, 8); (9, 13); (14, 15); (15, 16); (16, 17); (17, 18); (18, 19); (19, 19)]%N.
+Proof. exact ErrInsideTop.ex_soft_param_text. Qed.
+
+(* the bound is tight for non-empty ranges as well: in C05_containment_example (`; }` replaced by `} + +`) the damaged
+   region is [5, 15] = [o, length xpre + length xmid2]; its errors are 11..11, 11..11 and 13..15 *)
+Example C05_located_example :
+  let p' := prog_of (xpre ++ xmid2 ++ xpost) in
+  map (fun e => (e_s e, e_e e)) (decl_errors (firstn (3 - 1) (skipn 1 (pg_decls p')))) = [(11, 11); (11, 11); (13, 15)] /\
+  length xpre + length xmid2 = 15 /\
+  (forall e, In e (decl_errors (firstn (3 - 1) (skipn 1 (pg_decls p')))) -> C05_inside 5 (length xpre + length xmid2) e).
+Proof. exact ErrInsideTop.ex_located. Qed.
